@@ -480,13 +480,16 @@ func c12Run(seed uint64, proposals int, profile string) string {
 		c.net.drop, c.net.dup, c.net.maxMS = 0, 0, 1
 		c.maxApplying = 1 + int(seed%2)
 		slowEvery = 3
+	case "confchange": // directed: see c12ConfChangeCatchUp
+		c.net.drop, c.net.dup, c.net.maxMS = 0, 0, 1
+		c.compactAt = 100000
 	case "stalefuture": // directed: see c12StaleFuture
 		c.net.drop, c.net.dup, c.net.maxMS = 0, 0, 1
 		c.checkQuorum = false
 		c.compactAt = 100000 // the old leader must catch up by log entries, not by a snapshot
 	}
 	switch profile {
-	case "backpressure", "stalefuture":
+	case "backpressure", "stalefuture", "confchange":
 	case "lossy":
 		c.net.drop, c.net.dup, c.net.maxMS = 8, 6, 6
 	case "calm":
@@ -524,6 +527,10 @@ func c12Run(seed uint64, proposals int, profile string) string {
 	deadline := time.Now().Add(40 * time.Second)
 	if profile == "stalefuture" {
 		c12StaleFuture(c, r, &nextID, &futs, &fmu, &fwg)
+		proposals = 0
+	}
+	if profile == "confchange" {
+		c12ConfChangeCatchUp(c, r, &nextID, &futs, &fmu, &fwg)
 		proposals = 0
 	}
 	for p := 0; p < proposals && time.Now().Before(deadline); p++ {
@@ -759,6 +766,80 @@ func c12StaleFuture(c *c12Cluster, r *Rand, nextID *uint64, futs *[]string, fmu 
 	c.net.mu.Unlock()
 }
 
+// c12ConfChangeCatchUp — directed schedule for the flush of pending normal entries in front of a
+// membership change: one follower is cut off, the leader commits ONE command, then a ConfChange
+// (add learner), then more commands; the follower heals and receives the whole backlog in one
+// Ready, i.e. a committed span `normal, ConfChange, normal, normal…` that applyCommittedEntries must
+// flush around the ConfChange without handing any command to the state machine twice.  The same
+// is repeated with 2 commands in front of a second ConfChange (remove the learner again).
+func c12ConfChangeCatchUp(c *c12Cluster, r *Rand, nextID *uint64, futs *[]string, fmu *sync.Mutex, fwg *sync.WaitGroup) {
+	s := c12Slots[0]
+	wait := func(cond func() bool, d time.Duration) bool {
+		end := time.Now().Add(d)
+		for time.Now().Before(end) {
+			if cond() {
+				return true
+			}
+			time.Sleep(5 * time.Millisecond)
+		}
+		return false
+	}
+	appliedOf := func(id multiraft.NodeID) uint64 {
+		core := c.cores[c12Key(id, s)]
+		core.mu.Lock()
+		defer core.mu.Unlock()
+		return core.applied
+	}
+	var lead multiraft.NodeID
+	var rt *multiraft.Runtime
+	if !wait(func() bool { lead, rt = c.leader(s); return rt != nil }, 5*time.Second) {
+		return
+	}
+	sync1 := func(n int) { // n proposals on the leader, wait until they are committed
+		var mine []string
+		var mmu sync.Mutex
+		var mwg sync.WaitGroup
+		for i := 0; i < n; i++ {
+			c12ProposeOn(rt, s, nextID, &mine, &mmu, &mwg, 3*time.Second)
+		}
+		mwg.Wait()
+		fmu.Lock()
+		*futs = append(*futs, mine...)
+		fmu.Unlock()
+	}
+	sync1(2)
+	follower := c12NodeIDs[0]
+	if follower == lead {
+		follower = c12NodeIDs[1]
+	}
+	for round := 0; round < 2; round++ {
+		wait(func() bool { return appliedOf(follower) == appliedOf(lead) }, 3*time.Second)
+		c.net.mu.Lock()
+		for _, o := range c12NodeIDs {
+			if o != follower {
+				c.net.blocked[[2]multiraft.NodeID{follower, o}] = true
+				c.net.blocked[[2]multiraft.NodeID{o, follower}] = true
+			}
+		}
+		c.net.mu.Unlock()
+		sync1(1 + round) // exactly one (then two) commands in front of the membership change
+		change := multiraft.ConfigChange{Type: multiraft.AddLearner, NodeID: 4}
+		if round == 1 {
+			change = multiraft.ConfigChange{Type: multiraft.RemoveVoter, NodeID: 4}
+		}
+		if fut, err := rt.ChangeConfig(context.Background(), s, change); err == nil {
+			ctx, cancel := context.WithTimeout(context.Background(), 3*time.Second)
+			_, _ = fut.Wait(ctx)
+			cancel()
+		}
+		sync1(r.Range(2, 3))
+		c.net.mu.Lock()
+		c.net.blocked = map[[2]multiraft.NodeID]bool{}
+		c.net.mu.Unlock()
+		wait(func() bool { return appliedOf(follower) == appliedOf(lead) }, 3*time.Second)
+	}
+}
+
 func c12Propose(c *c12Cluster, r *Rand, nextID *uint64, futs *[]string, fmu *sync.Mutex, fwg *sync.WaitGroup) {
 	s := c12Slots[r.Intn(len(c12Slots))]
 	id := *nextID
@@ -833,6 +914,8 @@ func genC12(g *Gen) {
 			profile = "stalefuture"
 		case 1:
 			profile = "backpressure"
+		case 2:
+			profile = "confchange"
 		}
 		g.Count("profile:" + profile)
 		n := g.R.Range(40, 90)
